@@ -3116,6 +3116,17 @@ class CWLTranslator:
                     name_prefix, cwl_name_prefix, element_source
                 )
                 source_port = self._get_source_port(workflow, source_name)
+                # If `pickValue` is specified, apply it to the (array) value of the single source
+                if pick_value is not None:
+                    source_port = _create_list_merger(
+                        name=global_name
+                        + inner_steps_prefix
+                        + "-list-merge-combinator",
+                        workflow=workflow,
+                        ports={source_name: source_port},
+                        link_merge=link_merge,
+                        pick_value=pick_value,
+                    ).get_output_port()
                 # If there is a default value, construct a default port block
                 if element_input.default is not None:
                     # Insert default port
